@@ -229,7 +229,7 @@ func runSolvers(file, zfile string, sec int, seed int, only []string) SolverResu
 	res := SolverResult{Raw: map[string]string{}}
 	for i := 0; i < n; i++ {
 		o := <-ch
-		first := strings.TrimSpace(strings.SplitN(o.out, "\n", 2)[0])
+		first := firstVerdictLine(o.out)
 		if len(first) > 200 {
 			first = first[:200]
 		}
@@ -268,7 +268,7 @@ func runSolversAll(file, zfile string, sec int, seed int) map[string]Verdict {
 			var buf bytes.Buffer
 			cmd.Stdout = &buf
 			_ = cmd.Run()
-			first := strings.TrimSpace(strings.SplitN(buf.String(), "\n", 2)[0])
+			first := firstVerdictLine(buf.String())
 			v := Unknown
 			switch first {
 			case "unsat":
@@ -306,4 +306,17 @@ func pickFile(solver, file, zfile string) string {
 		return zfile // arrays defined by lambdas instead of quantified facts
 	}
 	return file
+}
+
+// firstVerdictLine: the solver's answer, skipping warnings printed before it.
+func firstVerdictLine(out string) string {
+	lines := strings.Split(out, "\n")
+	for _, l := range lines {
+		l = strings.TrimSpace(l)
+		switch l {
+		case "sat", "unsat", "unknown", "timeout":
+			return l
+		}
+	}
+	return strings.TrimSpace(lines[0])
 }
